@@ -150,6 +150,26 @@ impl<C> Filter<C> for CountEvals<C> {
     }
 }
 
+/// A plain (unfiltered, non-recording) layer that vetoes, through `event_enabled`, every event whose `val` field ends
+/// in 999 - whatever the per-layer filters below or above it decided.
+pub struct VetoVal;
+struct ValOnly(u64);
+impl tracing_core::field::Visit for ValOnly {
+    fn record_u64(&mut self, f: &tracing_core::field::Field, v: u64) {
+        if f.name() == "val" {
+            self.0 = v;
+        }
+    }
+    fn record_debug(&mut self, _f: &tracing_core::field::Field, _v: &dyn std::fmt::Debug) {}
+}
+impl<C: Collect> Subscribe<C> for VetoVal {
+    fn event_enabled(&self, event: &tracing_core::Event<'_>, _cx: tracing_subscriber::subscribe::Context<'_, C>) -> bool {
+        let mut v = ValOnly(0);
+        event.record(&mut v);
+        v.0 % 1000 != 999
+    }
+}
+
 /// Registry of the recording leaves created while building (so that engines can reach their config).
 pub struct Built<C> {
     pub layer: BoxS<C>,
@@ -178,6 +198,7 @@ where
         "none" => Box::new(None::<BoxS<C>>),
         "box" => Box::new(build_tree::<C>(stack, &v["c"], leaves)),
         "identity" => Box::new(tracing_subscriber::subscribe::Identity::new()),
+        "veto" => Box::new(VetoVal),
         "and_then" => {
             let a = build_tree::<C>(stack, &v["a"], leaves);
             let b = build_tree::<C>(stack, &v["b"], leaves);
@@ -223,6 +244,8 @@ pub struct LeafModel {
 pub struct StackModel {
     pub leaves: Vec<LeafModel>,
     pub globals: Vec<Value>,
+    /// the stack contains a `VetoVal` layer (top level of a group)
+    pub has_veto: bool,
 }
 
 pub fn flatten(groups: &[Value]) -> StackModel {
@@ -231,6 +254,7 @@ pub fn flatten(groups: &[Value]) -> StackModel {
         match v["k"].as_str().unwrap_or("") {
             "leaf" => m.leaves.push(LeafModel { id: v["id"].as_u64().unwrap_or(0) as usize, path: path.clone() }),
             "global" => m.globals.push(v["f"].clone()),
+            "veto" => m.has_veto = true,
             "filtered" => {
                 path.push(v["f"].clone());
                 go(&v["c"], path, m);
